@@ -1,14 +1,124 @@
-import FastorModel.Model.LU
+import FastorModel.Proofs.LUBlock
+import FastorModel.Proofs.LUPivot
+import Mathlib.Data.Rat.Defs
+import Mathlib.Algebra.Order.Field.Rat
 /-
-  C11 — LU factorisation.  (theorems are added below as they are proved)
+  C11 — "For every size and each LU strategy (block, simple, and their pivoted forms with permutation returned as a vector or
+  as a matrix), L is unit lower triangular with exact zeros above the diagonal, U is upper triangular with exact zeros below
+  it, the returned permutation is a bijection, and L*U equals the permuted input […]. reconstruct(L,U,P) returns the original
+  matrix […]."
+
+  The theorems are about `Model/LU.lean`, which transcribes the loops, views, size classes, split points and zero fills of
+  backend/lufact.h, unary_lu_op.h and unary_piv_op.h, over ANY field `K` (exact arithmetic: what a wrong index, split, fill or
+  swap breaks).  `IsLU n A L U` is the specification (unit diagonal, exact zeros above / below, `L*U = A`).
+  The floating-point backward-error bound of the property is outside what is proved (measured by the harness, labelled a test).
+
+  Proved for ALL sizes: the recursive kernel (`lu_recursive_correct`), one block step for every split point (`lu_block_step`),
+  the block strategy for every size of the recursive and both blocked classes, n > 8 (`lu_block_correct`, strong induction on
+  the size along the dispatch), its pivoted form (`lu_blockPiv_correct`), the permutation (`pivot_perm`, `pivot_matrix`).
+  Partial: the two Doolittle loop nests (`lu_simple_dispatcher` for M > 8 and the unrolled `_lufact<T,1..8>`): the algebraic step
+  is proved (`lu_simple_correct_partial`: the equations the loops assign force `L*U = A`); that the loop nests establish these
+  equations for every n (frame reasoning over the sequence of `set`s) is NOT proved here — the full statement would be
+      theorem lu_simple_correct (n) (A : Mat K) (h : every pivot U_jj, j+1<n, of luSimple n A is non-zero) :
+          IsLU n A (luSimple n A).1 (luSimple n A).2
+  and is tied by the exact correspondence only.  `reconstruct(L,U,P) = A` likewise (tie + oracle only).
 -/
 namespace Fastor.C11
-open Fastor.LU
+open Fastor.LU Finset
 
-/-- both blocks of the blocked size classes are non-empty and strictly smaller: the recursion of `lu_block_dispatcher` is well founded
-and never produces an empty tensor -/
+variable {K : Type} [Field K]
+
+/-- both blocks of the blocked size classes are non-empty and strictly smaller: the recursion of `lu_block_dispatcher` is well
+founded, never produces an empty tensor and never reaches the unrolled kernels -/
 theorem blockSplit_bounds (n : Nat) (h : 32 < n) : 16 ≤ blockSplit n ∧ blockSplit n < n ∧ blockSplit n ≤ n - blockSplit n := by
   unfold blockSplit
   split <;> omega
+
+/-- `recursive_lu_dispatcher`, every size M ≥ 2, every A on which it is defined (non-zero pivots as met by the recursion),
+whatever L and U held before. -/
+theorem lu_recursive_correct (n : Nat) (hn : 2 ≤ n) (A L0 U0 : Mat K) (hdef : RecDefined n A) :
+    IsLU n A (luRecursive n A L0 U0).1 (luRecursive n A L0 U0).2 :=
+  luRecursive_isLU n hn A L0 U0 hdef
+
+/-- one step of `lu_block_dispatcher` for EVERY split point N ≤ n (the code's `(M/8*8)/2` and `(M/16*16)/2` are instances):
+if the two sub-factorisations are right and the triangular inverses are inverses, the assembled factors are right; the two
+blocks the dispatcher does not write are zero because the destination was zero. -/
+theorem lu_block_step (ops : InvOps K) (hops : InvSpec ops) (n N : Nat) (hN : N ≤ n) (A L0 U0 L11 U11 L22 U22 X Y : Mat K)
+    (h11 : IsLU N (A.block 0 0 N N) L11 U11) (hd : ∀ i, i < N → U11.get i i ≠ 0)
+    (hL0 : ∀ i j, i < n → j < n → i < j → L0.get i j = 0) (hU0 : ∀ i j, i < n → j < n → j < i → U0.get i j = 0)
+    (h22 : IsLU (n - N)
+      (Mat.sub (n - N) (n - N) (A.block N N (n - N) (n - N))
+        (Mat.mul (n - N) N (n - N) (Mat.mul (n - N) N N (A.block N 0 (n - N) N) (ops.invUpper N U11))
+          (Mat.mul N N (n - N) (ops.invLower N L11) (A.block 0 N N (n - N))))) L22 U22) :
+    IsLU n A
+      (assemble n N L0 L11 X (Mat.mul (n - N) N N (A.block N 0 (n - N) N) (ops.invUpper N U11)) L22 false)
+      (assemble n N U0 U11 (Mat.mul N N (n - N) (ops.invLower N L11) (A.block 0 N N (n - N))) Y U22 true) :=
+  block_step ops hops n N hN A L0 U0 L11 U11 L22 U22 X Y h11 hd hL0 hU0 h22
+
+/-- `lu<LUCompType::BlockLU>(A, L, U)` (`L.fill(0); U.fill(0); lu_block_dispatcher`) for EVERY n > 8 — the recursive class
+9..32, the class 33..64 (split `(M/8*8)/2`) and the class > 64 (split `(M/16*16)/2`, sub-dispatch through
+`useless::lu_block_simple_dispatcher`) — and every A on which the strategy is defined. -/
+theorem lu_block_correct (ops : InvOps K) (hops : InvSpec ops) (gt : K → K → Bool) (n : Nat) (hn : 8 < n) (A : Mat K)
+    (hdef : BlockDefined ops n A) :
+    IsLU n A (luPublicV ops gt .block n A).L (luPublicV ops gt .block n A).U := by
+  simp only [luPublicV, luCore, if_true]
+  exact luBlock_isLU ops hops n hn A _ _ (fun i j _ _ _ => get_zero n n i j) (fun i j _ _ _ => get_zero n n i j) hdef
+
+/-- the static pivot: for EVERY input (any comparison `gt`, any matrix) the vector produced by the swap loop of
+`pivot_inplace` is a bijection of 0..n-1 -/
+theorem pivot_perm {α : Type} [Zero α] (gt : α → α → Bool) (n : Nat) (A : Mat α) :
+    (pivotPerm gt n A).size = n ∧ (∀ i, i < n → (pivotPerm gt n A).getD i 0 < n) ∧
+    (∀ i j, i < n → j < n → (pivotPerm gt n A).getD i 0 = (pivotPerm gt n A).getD j 0 → i = j) ∧
+    (∀ v, v < n → ∃ i, i < n ∧ (pivotPerm gt n A).getD i 0 = v) :=
+  pivotPerm_bijection gt n A
+
+/-- the matrix encoding is the permutation matrix of that vector (`P.fill(0)` included: every other entry is an exact zero) -/
+theorem pivot_matrix (gt : K → K → Bool) (n : Nat) (A : Mat K) (i j : Nat) (hi : i < n) (hj : j < n) :
+    (pivotMat n (pivotPerm gt n A) : Mat K).get i j = if (pivotPerm gt n A).getD i 0 = j then 1 else 0 :=
+  pivotMat_get n _ (pivotPerm_bijection gt n A).2.1 i j hi hj
+
+/-- `lu<LUCompType::BlockLUPiv>(A, L, U, p)`, n > 8: `L*U = P*A` with `(P*A)(i,j) = A(p(i), j)`, `p` a bijection. -/
+theorem lu_blockPiv_correct (ops : InvOps K) (hops : InvSpec ops) (gt : K → K → Bool) (n : Nat) (hn : 8 < n) (A : Mat K)
+    (hdef : BlockDefined ops n (applyPivotV n A (pivotPerm gt n A))) :
+    let r := luPublicV ops gt .blockPiv n A
+    (∀ i, i < n → r.L.get i i = 1) ∧ (∀ i j, i < n → j < n → i < j → r.L.get i j = 0) ∧
+    (∀ i j, i < n → j < n → j < i → r.U.get i j = 0) ∧
+    (∀ i j, i < n → j < n → ∑ m ∈ range n, r.L.get i m * r.U.get m j = A.get (r.perm.getD i 0) j) ∧
+    (∀ v, v < n → ∃ i, i < n ∧ r.perm.getD i 0 = v) := by
+  simp only [luPublicV, luCore, if_true]
+  have h := luBlock_isLU ops hops n hn (applyPivotV n A (pivotPerm gt n A)) _ _
+    (fun i j _ _ _ => get_zero n n i j) (fun i j _ _ _ => get_zero n n i j) hdef
+  refine ⟨h.diag, h.lzero, h.uzero, ?_, (pivotPerm_bijection gt n A).2.2.2⟩
+  intro i j hi hj
+  rw [h.mul i j hi hj, applyPivotV_get n A _ i j hi hj]
+
+/-- PARTIAL (see the header): the equations assigned by the Doolittle loop nests (`lu_simple_dispatcher`, `_lufact<T,N>`)
+force `L*U = A`. -/
+theorem lu_simple_correct_partial (n : Nat) (A L U : Mat K)
+    (hdiag : ∀ i, i < n → L.get i i = 1)
+    (hlz : ∀ i j, i < n → j < n → i < j → L.get i j = 0)
+    (huz : ∀ i j, i < n → j < n → j < i → U.get i j = 0)
+    (hU : ∀ i j, i < n → j < n → i ≤ j → U.get i j = A.get i j - ∑ k ∈ range i, L.get i k * U.get k j)
+    (hL : ∀ i j, i < n → j < n → j < i → L.get i j = (A.get i j - ∑ k ∈ range j, L.get i k * U.get k j) / U.get j j)
+    (hpiv : ∀ j, j + 1 < n → U.get j j ≠ 0) : IsLU n A L U :=
+  doolittle_equations_isLU n A L U hdiag hlz huz hU hL hpiv
+
+/-! ### non-vacuity: concrete matrices on which the strategies are defined -/
+/-- a 9×9 tridiagonal rational matrix (the smallest size of the recursive class) -/
+def exA : Mat ℚ := Mat.ofFn 9 9 fun i j => if i = j then 4 else if i + 1 = j ∨ j + 1 = i then 1 else 0
+/-- the same with rows 0 and 1 exchanged: the static pivot has to swap -/
+def exB : Mat ℚ := Mat.ofFn 9 9 fun i j => exA.get (if i = 0 then 1 else if i = 1 then 0 else i) j
+def exGt (a b : ℚ) : Bool := decide (b * b < a * a)
+
+instance (n : Nat) (A : Mat ℚ) : Decidable (RecDefined n A) := by unfold RecDefined; infer_instance
+
+example : RecDefined 9 exA := by decide +kernel
+example : BlockDefined (execOps : InvOps ℚ) 9 exA := by
+  rw [BlockDefined, dif_neg (by decide), dif_pos (by decide)]
+  decide +kernel
+example : (pivotPerm exGt 9 exB).toList = [1, 0, 2, 3, 4, 5, 6, 7, 8] := by decide +kernel
+example : BlockDefined (execOps : InvOps ℚ) 9 (applyPivotV 9 exB (pivotPerm exGt 9 exB)) := by
+  rw [BlockDefined, dif_neg (by decide), dif_pos (by decide)]
+  decide +kernel
 
 end Fastor.C11
